@@ -15,7 +15,11 @@ meta = {"id": sid, "breaks_property": prop, "source": "independent sub-agent giv
         "repo_head": subprocess.run(["git", "-C", "/repo", "rev-parse", "HEAD"], capture_output=True, text=True).stdout.strip()}
 def run_demo():
     env = dict(os.environ, PYTHONPATH=wt)
-    p = subprocess.run([sys.executable, demo], capture_output=True, text=True, cwd=wt, env=env, timeout=600)
+    # the script's own directory comes first on sys.path: run a copy inside the scratch worktree, so that a demo delivered
+    # inside the seeder's (unpatched) worktree imports the tree under test and not the seeder's
+    local = os.path.join(wt, "_intake_demo.py")
+    shutil.copy(demo, local)
+    p = subprocess.run([sys.executable, local], capture_output=True, text=True, cwd=wt, env=env, timeout=600)
     return p.returncode, (p.stdout + p.stderr)[-400:]
 try:
     rc_clean, out_clean = run_demo()
